@@ -366,6 +366,43 @@ pub fn c05_run(opts: &crate::Opts, out: &mut Out) {
             out.case(format!("systematic mutation of {}", key));
         }
     }
+    // the bit length / aggregation capacity of one member of a small batch altered, at every position and in both
+    // directions (the verifier reads these from the first statement; only the consistency check binds the others)
+    for (n, t) in [(4usize, 1usize), (32, 2), (8, 3)] {
+        let members: Vec<(Inst, Stmt, Proof)> = (0..3)
+            .map(|i| {
+                let inst = random_inst(n, 1, 1, t, 4 + i, i == 1, &mut rng);
+                let st = inst.statement();
+                let p = inst.prove(&mut rng).unwrap();
+                (inst, st, p)
+            })
+            .collect();
+        let stmts: Vec<Stmt> = members.iter().map(|m| m.1.clone()).collect();
+        let proofs: Vec<Proof> = members.iter().map(|m| m.2.clone()).collect();
+        let mut ts: Vec<Transcript> = members.iter().map(|m| m.0.transcript()).collect();
+        out.oracle("C05:base-accepted", verify_caught(&mut ts, &stmts, &proofs, VerifyAction::VerifyOnly) == Ok(true), &format!("batch of 3, n={} t={}", n, t), "honest batch not accepted");
+        for pos in 0..3usize {
+            for n2 in [1usize, 2, 4, 8, 16, 32, 64] {
+                if n2 == n {
+                    continue;
+                }
+                for cap2 in [1usize, 2] {
+                    let Ok(alt) = RangeStatement::init(params(n2, cap2, t), stmts[pos].commitments.clone(), stmts[pos].minimum_value_promises.clone(), stmts[pos].seed_nonce) else { continue };
+                    let mut st2 = stmts.clone();
+                    st2[pos] = alt;
+                    for action in [VerifyAction::VerifyOnly, VerifyAction::RecoverAndVerify] {
+                        let mut ts: Vec<Transcript> = members.iter().map(|m| m.0.transcript()).collect();
+                        nmut += 1;
+                        classes.insert((n, 3, pos, format!("batch-bit-length-{}", n2 > n)));
+                        match verify_caught(&mut ts, &st2, &proofs, action) {
+                            Err(()) => out.oracle("C05:no-panic", false, "batch of 3", "verify_batch panicked"),
+                            Ok(ok) => out.oracle("C05:altered-triple-rejected", !ok, &format!("batch of 3 (n={} t={}), bit length of the statement at position {} altered to {} (capacity {}) action={:?}", n, t, pos, n2, cap2, action), "a batch with one statement's bit length altered was accepted"),
+                        }
+                    }
+                }
+            }
+        }
+    }
     // alterations of one triple at each position class of a batch larger than the internal chunk limit
     if GROUP == "freemodule" {
         let k = 257usize;
@@ -597,6 +634,35 @@ pub fn c16_run(opts: &crate::Opts, out: &mut Out) {
                     out.oracle("C16:mixed-batch-verdict", ok == (!tamper || action == VerifyAction::RecoverOnly), &key, &format!("verdict {}", ok));
                 }
                 classes.insert((order.len(), order[0], 0, tamper as usize, 98, action_name(action)));
+            }
+        }
+    }
+    // (7) mixed batches beyond the internal chunk limit: the largest statement sits in one chunk only, and the member
+    // at "its" position in the other chunks has fewer generators
+    {
+        let small = &pool[3]; // (agg 1, cap 1)
+        let mid = &pool[5]; // (agg 1, cap 2)
+        let big = &pool[4]; // (agg 2, cap 8)
+        let sizes: Vec<usize> = if opts.thorough { vec![257, 300, 513, 600] } else { vec![257, 300] };
+        for size in sizes {
+            for big_at in [0usize, 1, 255, 256, size - 1] {
+                if GROUP == "ristretto" && !opts.thorough && big_at == 1 {
+                    continue;
+                }
+                let pick = |i: usize| if i == big_at { big } else if i % 3 == 0 { mid } else { small };
+                let stmts: Vec<Stmt> = (0..size).map(|i| pick(i).1.clone()).collect();
+                let proofs: Vec<Proof> = (0..size).map(|i| pick(i).2.clone()).collect();
+                let mut ts: Vec<Transcript> = (0..size).map(|i| pick(i).0.transcript()).collect();
+                let t0 = std::time::Instant::now();
+                let r = std::panic::catch_unwind(std::panic::AssertUnwindSafe(|| Proof::verify_batch(&mut ts, &stmts, &proofs, VerifyAction::VerifyOnly).is_ok()));
+                worst_ms = worst_ms.max(t0.elapsed().as_millis());
+                ncalls += 1;
+                let key = format!("{} mixed batch of {} with the largest statement at {}", GROUP, size, big_at);
+                out.oracle("C16:verify-no-panic", r.is_ok(), &key, "panicked");
+                if let Ok(ok) = r {
+                    out.oracle("C16:mixed-batch-verdict", ok, &key, "a batch of valid proofs was refused");
+                }
+                classes.insert((size, big_at, 0, 0, 95, "verify"));
             }
         }
     }
